@@ -7,10 +7,13 @@
  * -Dputs=fw_puts -Dprintf=fw_printf -Dputchar=fw_putchar so its diagnostics do not reach the
  * protocol stream), and a fixed table of recording callbacks.
  *
- *   ts.run CUR op ; op ; ...     one line = one history on a zeroed scheduler with cur_bucket = CUR
- *     sched OFF CB P1 P2 P3 PRIO   -> r<rc>            (CB = 0..12, or E = &tdma_end_set)
+ *   ts.run CUR [def ... ;]* op ; op ; ...   one line = one history on a zeroed scheduler with cur_bucket = CUR
+ *     def ID call | call | ...     -> k   script of callback ID: the calls it makes on the REAL scheduler from
+ *                                         inside, when tdma_sched_execute() invokes it (call = sched ... | set ...);
+ *                                         scripts come first, one per id, <= 16 calls, <= 64 set elements
+ *     sched OFF CB P1 P2 P3 PRIO   -> r<rc>            (CB = 0..24, or E = &tdma_end_set)
  *     set OFF P3 <elem>...         -> r<rc>            (elem: `i CB P1 P2 PRIO FLAGS` | F | E)
- *     exec                         -> x<rc>[:id,p1,p2,p3,ret]...
+ *     exec                         -> x<rc>[:id,p1,p2,p3,ret[/rc]...]...   (/rc: what each scripted call returned)
  *     adv -> a   reset -> z   flags -> f<flag_scan>   dump -> d<num_items of bucket wrap(i)>,...
  */
 #include <stdio.h>
@@ -30,7 +33,9 @@ int fw_printf(const char *fmt, ...) { (void) fmt; return 0; }
 int fw_putchar(int c) { return c; }
 
 /* ---- recording callbacks ---------------------------------------------------------------- */
-#define NUM_CALLBACKS 13
+#define NUM_CALLBACKS 25
+#define MAX_SCRIPT_CALLS 16
+#define MAX_SCRIPT_SET 64
 struct buf { char *p; size_t len, cap; };
 static struct buf out;      /* answer line under construction */
 static struct buf calls;    /* callbacks invoked by the running tdma_sched_execute() */
@@ -75,17 +80,47 @@ static int cb_ret(int id, uint8_t p1, uint8_t p2, uint16_t p3)
 	return 0;
 }
 
+/* a scheduler call: as an op of the history, or made by a scripted callback from inside */
+struct call {
+	int is_set;
+	long off, p1, p2, p3, prio;
+	tdma_sched_cb *cb;
+	int nset;
+	struct tdma_sched_item *set;		/* is_set: the caller's item_set[] (with END_SET) */
+};
+struct script {
+	int n;
+	struct call c[MAX_SCRIPT_CALLS];
+	struct tdma_sched_item set[MAX_SCRIPT_CALLS][MAX_SCRIPT_SET];
+};
+static struct script scripts[NUM_CALLBACKS];
+static int script_defined[NUM_CALLBACKS];
+
+static int do_call(const struct call *c)
+{
+	if (c->is_set)
+		return tdma_schedule_set((uint8_t) c->off, c->set, (uint16_t) c->p3);
+	return tdma_schedule((uint8_t) c->off, c->cb, (uint8_t) c->p1, (uint8_t) c->p2, (uint16_t) c->p3,
+			     (int16_t) c->prio);
+}
+
+/* the body of every callback: record the invocation, make the scripted calls on the real scheduler
+ * (we are inside tdma_sched_execute()), record what they returned, report the fixed result */
 static int record(int id, uint8_t p1, uint8_t p2, uint16_t p3)
 {
-	int rc = cb_ret(id, p1, p2, p3);
+	int rc = cb_ret(id, p1, p2, p3), k;
 	emit_call(":%d,%u,%u,%u,%d", id, p1, p2, p3, rc);
+	for (k = 0; k < scripts[id].n; k++)
+		emit_call("/%d", do_call(&scripts[id].c[k]));
 	return rc;
 }
 
 #define CB(n) static int cb##n(uint8_t p1, uint8_t p2, uint16_t p3) { return record(n, p1, p2, p3); }
 CB(0) CB(1) CB(2) CB(3) CB(4) CB(5) CB(6) CB(7) CB(8) CB(9) CB(10) CB(11) CB(12)
+CB(13) CB(14) CB(15) CB(16) CB(17) CB(18) CB(19) CB(20) CB(21) CB(22) CB(23) CB(24)
 static tdma_sched_cb *const cb_table[NUM_CALLBACKS] = {
-	cb0, cb1, cb2, cb3, cb4, cb5, cb6, cb7, cb8, cb9, cb10, cb11, cb12
+	cb0, cb1, cb2, cb3, cb4, cb5, cb6, cb7, cb8, cb9, cb10, cb11, cb12,
+	cb13, cb14, cb15, cb16, cb17, cb18, cb19, cb20, cb21, cb22, cb23, cb24
 };
 
 /* ---- parsing ------------------------------------------------------------------------------ */
@@ -111,48 +146,88 @@ static tdma_sched_cb *cb_of(const char *s)
 #define MAXTOK (1 << 18)
 #define MAXSET 8192
 
-/* one op: tok[0..n) ; returns 0 if malformed */
-static int do_op(char **tok, int n)
+/* `sched ...` / `set ...` : tok[0..n) -> *c ; set elements go to setbuf[0..maxset) ; 0 if malformed */
+static int parse_call(char **tok, int n, struct call *c, struct tdma_sched_item *setbuf, int maxset)
 {
-	long a, b, c, d, e;
+	static const struct tdma_sched_item end_frame = SCHED_END_FRAME();
+	static const struct tdma_sched_item end_set = SCHED_END_SET();
+	memset(c, 0, sizeof(*c));
 	if (n == 7 && !strcmp(tok[0], "sched")) {
-		tdma_sched_cb *cb = !strcmp(tok[2], "E") ? &tdma_end_set : cb_of(tok[2]);
-		if (!cb || !num(tok[1], &a, 0) || !num(tok[3], &b, 0) || !num(tok[4], &c, 0)
-		    || !num(tok[5], &d, 0) || !num(tok[6], &e, 1))
+		c->cb = !strcmp(tok[2], "E") ? &tdma_end_set : cb_of(tok[2]);
+		if (!c->cb || !num(tok[1], &c->off, 0) || !num(tok[3], &c->p1, 0) || !num(tok[4], &c->p2, 0)
+		    || !num(tok[5], &c->p3, 0) || !num(tok[6], &c->prio, 1))
 			return 0;
-		emit("r%d", tdma_schedule((uint8_t) a, cb, (uint8_t) b, (uint8_t) c, (uint16_t) d, (int16_t) e));
 		return 1;
 	}
 	if (n >= 3 && !strcmp(tok[0], "set")) {
-		static struct tdma_sched_item set[MAXSET];
-		static const struct tdma_sched_item end_frame = SCHED_END_FRAME();
-		static const struct tdma_sched_item end_set = SCHED_END_SET();
 		int i = 3, k = 0, have_end = 0;
-		if (!num(tok[1], &a, 0) || !num(tok[2], &b, 0))
+		if (!num(tok[1], &c->off, 0) || !num(tok[2], &c->p3, 0))
 			return 0;
 		while (i < n) {
-			if (k >= MAXSET)
+			if (k >= maxset)
 				return 0;
 			if (!strcmp(tok[i], "F")) {
-				set[k++] = end_frame; i++;
+				setbuf[k++] = end_frame; i++;
 			} else if (!strcmp(tok[i], "E")) {
-				set[k++] = end_set; have_end = 1; i++;
+				setbuf[k++] = end_set; have_end = 1; i++;
 			} else if (!strcmp(tok[i], "i") && i + 5 < n) {
 				long p1, p2, prio, flags;
 				tdma_sched_cb *cb = cb_of(tok[i + 1]);
 				if (!cb || !num(tok[i + 2], &p1, 0) || !num(tok[i + 3], &p2, 0)
 				    || !num(tok[i + 4], &prio, 1) || !num(tok[i + 5], &flags, 0))
 					return 0;
-				memset(&set[k], 0, sizeof(set[k]));
-				set[k].cb = cb; set[k].p1 = (uint8_t) p1; set[k].p2 = (uint8_t) p2;
-				set[k].prio = (int16_t) prio; set[k].flags = (uint16_t) flags;
+				memset(&setbuf[k], 0, sizeof(setbuf[k]));
+				setbuf[k].cb = cb; setbuf[k].p1 = (uint8_t) p1; setbuf[k].p2 = (uint8_t) p2;
+				setbuf[k].prio = (int16_t) prio; setbuf[k].flags = (uint16_t) flags;
 				k++; i += 6;
 			} else
 				return 0;
 		}
 		if (!have_end)
 			return 0;
-		emit("r%d", tdma_schedule_set((uint8_t) a, set, (uint16_t) b));
+		c->is_set = 1;
+		c->nset = k;
+		c->set = setbuf;
+		return 1;
+	}
+	return 0;
+}
+
+static int ops_started;		/* scripts must come before the first op */
+
+/* one op: tok[0..n) ; returns 0 if malformed */
+static int do_op(char **tok, int n)
+{
+	if (n >= 2 && !strcmp(tok[0], "def")) {
+		long id;
+		int start = 2, i;
+		struct script *sc;
+		if (ops_started || !num(tok[1], &id, 0) || id >= NUM_CALLBACKS || script_defined[id])
+			return 0;
+		sc = &scripts[id];
+		sc->n = 0;
+		script_defined[id] = 1;
+		if (n > 2) {
+			for (i = 2; i <= n; i++) {
+				if (i == n || !strcmp(tok[i], "|")) {
+					if (sc->n >= MAX_SCRIPT_CALLS
+					    || !parse_call(tok + start, i - start, &sc->c[sc->n], sc->set[sc->n], MAX_SCRIPT_SET))
+						return 0;
+					sc->n++;
+					start = i + 1;
+				}
+			}
+		}
+		emit("k");
+		return 1;
+	}
+	ops_started = 1;
+	if (n >= 1 && (!strcmp(tok[0], "sched") || !strcmp(tok[0], "set"))) {
+		static struct tdma_sched_item set[MAXSET];
+		struct call c;
+		if (!parse_call(tok, n, &c, set, MAXSET))
+			return 0;
+		emit("r%d", do_call(&c));
 		return 1;
 	}
 	if (n == 1 && !strcmp(tok[0], "exec")) {
@@ -211,6 +286,10 @@ int main(void)
 		}
 		/* syntax check of the whole line happens while running; a malformed op voids the line */
 		memset(&l1s, 0, sizeof(l1s));
+		memset(script_defined, 0, sizeof(script_defined));
+		for (i = 0; i < NUM_CALLBACKS; i++)
+			scripts[i].n = 0;
+		ops_started = 0;
 		l1s.tdma_sched.cur_bucket = (uint8_t) cur;
 		start = 2;
 		for (i = 2; i <= n && ok; i++) {
